@@ -306,6 +306,12 @@ pub trait KemOps: Send + Sync {
         enc: &[u8],
         scan: bool,
     ) -> R<(Vec<u8>, Option<KemScan>)>;
+    /// `threads` threads, each with its OWN recipient key pair and encapsulated key (derived from `ikm` and the
+    /// thread index), decapsulate `reps` times concurrently; every result is compared with the value the same
+    /// call gave sequentially beforehand. Returns (mismatches, calls).
+    fn decap_storm(&self, ikm: &[u8], threads: usize, reps: usize) -> (u64, u64);
+    /// Display and Debug renderings of every error variant (feature sets must agree on them)
+    fn error_strings(&self) -> Vec<String>;
 }
 
 pub struct Kx<M: Kem>(pub PhantomData<fn() -> M>);
@@ -332,8 +338,70 @@ fn ss_out<M: Kem>(ss: SharedSecret<M>, scan: bool) -> (Vec<u8>, Option<KemScan>)
 
 impl<M: Kem + 'static> KemOps for Kx<M>
 where
-    M::PublicKey: 'static,
+    M::PublicKey: 'static + Send + Sync,
+    M::PrivateKey: Send + Sync,
+    M::EncappedKey: Send + Sync,
 {
+    fn decap_storm(&self, ikm: &[u8], threads: usize, reps: usize) -> (u64, u64) {
+        let mut keys = Vec::new();
+        for t in 0..threads {
+            let mut seed = ikm.to_vec();
+            seed.push(t as u8);
+            let (sk, pk) = M::derive_keypair(&seed);
+            seed.push(0xE0);
+            let mut rng = ScriptRng::new(crate::lang::prand(t as u64 + 77, 200));
+            let (ss, enc) = match M::encap(&pk, None, &mut rng) {
+                Ok(x) => x,
+                Err(_) => continue,
+            };
+            // what decap gives sequentially, before any concurrency
+            let expected = match M::decap(&sk, None, &enc) {
+                Ok(s) => s.0.to_vec(),
+                Err(_) => Vec::new(),
+            };
+            let _ = ss;
+            keys.push((sk, enc, expected));
+        }
+        let barrier = std::sync::Barrier::new(keys.len());
+        let bad: u64 = std::thread::scope(|s| {
+            let hs: Vec<_> = keys
+                .iter()
+                .map(|(sk, enc, expected)| {
+                    let barrier = &barrier;
+                    s.spawn(move || {
+                        let mut bad = 0u64;
+                        barrier.wait();
+                        for _ in 0..reps {
+                            let got = match M::decap(sk, None, enc) {
+                                Ok(s) => s.0.to_vec(),
+                                Err(_) => Vec::new(),
+                            };
+                            if &got != expected {
+                                bad += 1;
+                            }
+                        }
+                        bad
+                    })
+                })
+                .collect();
+            hs.into_iter().map(|h| h.join().expect("storm thread panicked")).sum()
+        });
+        (bad, (keys.len() * reps) as u64)
+    }
+    fn error_strings(&self) -> Vec<String> {
+        let all = [
+            HpkeError::MessageLimitReached,
+            HpkeError::OpenError,
+            HpkeError::SealError,
+            HpkeError::KdfOutputTooLong,
+            HpkeError::ValidationError,
+            HpkeError::EncapError,
+            HpkeError::DecapError,
+            HpkeError::IncorrectInputLength(65, 33),
+            HpkeError::InvalidPskBundle,
+        ];
+        all.iter().map(|e| format!("{}|{:?}", e, e)).collect()
+    }
     fn kem_id(&self) -> u16 {
         M::KEM_ID
     }
